@@ -1,6 +1,6 @@
 SPECIFICATION Spec
 CONSTANT MaxLen = 8
-CONSTANT Instances = {"mem", "frame"}
+CONSTANT Instances = {"mem"}
 INVARIANT DepsExact
 INVARIANT ConflictsOrdered
 INVARIANT ReadsUnordered
